@@ -636,3 +636,88 @@ def prange_rule(rep: Report, kernels: Dict[str, Kernel], rule: str = "R-PRANGE")
                f"arrays allocated in the body: {sorted(allocated_in)}", f"{k.name}: scratch arrays in the prange body")
 
     return len(pk)
+
+
+def r_stateless(rep: Report, repo: Repo, methods=None, afile="hdc/algo/accessors.py", module="hdc.algo.accessors"):
+    """xarray builds an accessor once per object and caches it: whatever an accessor stores besides the object itself (a nodata value, an index, a
+    lookup table) is a snapshot that goes stale when the user edits attrs / coordinates in place. The methods a property goes through (`methods`:
+    [(class, method)], helper methods followed) therefore read no accessor state other than `_obj`; the HDC facade's sub-accessors are exempt."""
+    tree = repo.mod(module).tree
+    classes = {c.name: c for c in tree.body if isinstance(c, ast.ClassDef)}
+    facade_ok = {"algo", "anom", "iteragg", "rolling", "whit", "zonal"}
+    stored: Dict[str, ast.AST] = {}
+    for c in classes.values():
+        for m in c.body:
+            if isinstance(m, ast.FunctionDef):
+                for n in ast.walk(m):
+                    tg = n.targets if isinstance(n, ast.Assign) else [n.target] if isinstance(n, (ast.AugAssign, ast.AnnAssign)) else []
+                    for t in tg:
+                        for tt in ast.walk(t):
+                            if isinstance(tt, ast.Attribute) and isinstance(tt.value, ast.Name) and tt.value.id == "self" and tt.attr != "_obj" \
+                                    and not (c.name == "HDC" and tt.attr in facade_ok):
+                                stored.setdefault(tt.attr, n)
+            elif isinstance(m, ast.Assign) and isinstance(m.value, (ast.Dict, ast.List, ast.Set)):
+                for t in m.targets:
+                    if isinstance(t, ast.Name):
+                        stored.setdefault(t.id, m)      # class-level mutable container
+    all_methods = {(c.name, m.name): m for c in classes.values() for m in c.body if isinstance(m, ast.FunctionDef)}
+    by_name: Dict[str, List[ast.FunctionDef]] = {}
+    for (cn, mn), m in all_methods.items():
+        by_name.setdefault(mn, []).append(m)
+    todo = list(methods) if methods is not None else list(all_methods)
+    for cn, mn in todo:
+        m = all_methods.get((cn, mn))
+        if m is None:
+            continue
+        seen, work, reads = set(), [m], []
+        while work:
+            f = work.pop()
+            if id(f) in seen:
+                continue
+            seen.add(id(f))
+            for n in ast.walk(f):
+                if isinstance(n, ast.Attribute) and isinstance(n.value, ast.Name) and n.value.id == "self" and isinstance(n.ctx, ast.Load):
+                    if n.attr in stored:
+                        reads.append((f.name, n))
+                    elif n.attr in by_name and n.attr not in ("__init__",):
+                        work.extend(by_name[n.attr])
+        where = f"{cn}.{mn}"
+        if reads:
+            fnm, n = reads[0]
+            st = stored[n.attr]
+            rep.ob("R-STATELESS", afile, where, "the method reads the wrapped object at call time, never a value stored on the accessor", False,
+                   f"`self.{n.attr}` (read in {fnm}, line {n.lineno}) is a snapshot taken by `{norm_stmt(st)[:90]}` (line {st.lineno}): xarray caches the accessor per object, "
+                   f"so an in-place change of attrs / coordinates made after the first access is not seen", n, line=n.lineno)
+        else:
+            rep.ob("R-STATELESS", afile, where, "the method reads the wrapped object at call time, never a value stored on the accessor", True,
+                   f"accessor state stored besides `_obj`: {sorted(stored)}", f"{where}: reads of accessor state")
+
+
+def ws2d_straight(rep: Report, repo: Repo, rule: str = "R-STRAIGHT", why: str = "") -> bool:
+    """The shared solver is one straight-line algorithm (no branch, early exit or data-dependent special case): every property that takes `ws2d` to BE
+    the penalised least-squares solve for all its inputs depends on it."""
+    fn0 = repo.func("hdc.algo.ops.ws2d", "ws2d")
+    pre = [n for n in ast.walk(fn0) if isinstance(n, (ast.If, ast.While, ast.Try, ast.IfExp, ast.With, ast.Break, ast.Continue, ast.Raise))]
+    rets = [n for n in ast.walk(fn0) if isinstance(n, ast.Return)]
+    ok = not pre and len(rets) == 1
+    bad = pre[0] if pre else (rets[0] if rets else fn0)
+    rep.ob(rule, "hdc/algo/ops/ws2d.py", "ws2d", "the solver every smoother calls has no data- or size-dependent special case", ok,
+           "" if ok else f"`{norm_stmt(bad)}` special-cases some inputs ({len(rets)} return statement(s)): for them the result is not the solution of (W + lambda D'D) z = W y{why}",
+           bad if not ok else "ws2d: control flow")
+    return ok
+
+
+def whits_lambda(rep: Report, repo: Repo, rule: str = "R-FORMULA"):
+    """`whits` hands the solver lambda = 10**sg (labelled arithmetic on the sgrid, aligned by dimension name) or the scalar s."""
+    from .poly import Normaliser
+    m_ = repo.method("hdc.algo.accessors", "WhittakerSmoother", "whits")
+    lam = [s_ for s_ in ast.walk(m_) if isinstance(s_, ast.Assign) and ast.unparse(s_.targets[0]) == "lmda"]
+    okl = False
+    if len(lam) == 1 and isinstance(lam[0].value, ast.IfExp):
+        e = lam[0].value
+        t = norm_stmt(e.test)
+        a, b_ = Normaliser().norm(e.body).key(), Normaliser().norm(e.orelse).key()
+        okl = (t == "sg is not None" and a == "pow[10;sg]" and b_ == "s") or (t == "sg is None" and a == "s" and b_ == "pow[10;sg]")
+    rep.ob(rule, "hdc/algo/accessors.py", "WhittakerSmoother.whits", "lambda = 10**sg when an sgrid is given, else s", okl,
+           f"{norm_stmt(lam[0]) if lam else None}: a conversion of the sgrid (np.asarray, .values, .data) drops its dimension labels, and the per-pixel lambda is then "
+           f"matched to the pixels by position", lam[0] if lam else "lmda = ...")
